@@ -19,6 +19,8 @@ ASSUMPTIONS_COMMON = [
     "library models of builtins/stdlib/torch operations used by the functions under contract (listed under coverage.trusted_base)",
     "machine arithmetic treated as mathematical (ints exact; floats as reals) except obligations marked IEEE",
     "solvers z3 5.1 / cvc5 1.0.3: an unsat answer is accepted",
+    "tensor aliasing: in-place updates reach every holder of the object and are written through views (basic indexing, detach, cpu, contiguous, float of a float tensor, copy.copy); "
+    "and views show later updates of their base (cross-checked against torch by tools/alias_selftest.py); NOT modelled: memory shared through Tensor.numpy()",
 ]
 
 
